@@ -116,8 +116,8 @@ def validate_batch(ctx, label, cases, blobs, argv, max_rounds, drift):
         blob = blobs.get(ev.get("id"), {})
         art = {"argv": argv, "seed": ctx.seed, "tlc_reason": reason, "case": ev, "blob": blob,
                "how_to_replay": "bin/check C02 --replay <this file>  (re-runs the driver with -only rule:variant on the profile)"}
-        if kind == "violation":
-            sig = classify(ev) + ":" + key
+        if kind in ("violation", "violation:class"):
+            sig = ("class" if kind == "violation:class" else classify(ev)) + ":" + key
             rp = ctx.save_replay("%s-%s-seed%d.json" % (label, re.sub(r"[^A-Za-z0-9_.-]", "_", sig), ctx.seed), art)
             ctx.report(sig, describe(ev, reason), rp)
         else:
@@ -127,7 +127,7 @@ def validate_batch(ctx, label, cases, blobs, argv, max_rounds, drift):
         ctx.cov["traces_validated_against_impl"] += idx
         k3 = (ev.get("rule"), ev.get("var"), ev.get("prof"))
         pending = [e for e in pending[idx + 1:] if (e.get("rule"), e.get("var"), e.get("prof")) != k3 or e.get("kind") == "arb"]
-        if ev.get("var") == "rebuilt_identity" and kind == "violation":
+        if ev.get("var") in ("rebuilt_identity", "genuine_base_import") and kind == "violation":
             # the base block itself is off-protocol: everything derived from it says nothing more
             pending = [e for e in pending if not (e.get("kind") == "mutant" and e.get("prof") == ev.get("prof")
                                                   and e.get("height") == ev.get("height"))]
